@@ -56,6 +56,7 @@ def main():
     for f in ("patch.diff", "demo.sh"):
         shutil.copy(os.path.join(src, f), dst)
     meta = json.load(open(os.path.join(src, "meta.json")))
+    meta["property"] = name.split("-")[0]      # (agents sometimes put the whole title there)
     meta["confirmed"] = {"suite": msg, "demo_unmodified_exit": 0, "demo_changed_exit": 1, "at_repo_head": head,
                          "how": "tools/confirm_seed.py: scratch worktree of /repo, cmake build, ctest, demo.sh against both binaries"}
     json.dump(meta, open(os.path.join(dst, "meta.json"), "w"), indent=1)
